@@ -1,4 +1,10 @@
 import CoapVerif.Lemmas.Observe
+import CoapVerif.Lemmas.ObserveInv
+import CoapVerif.Lemmas.ObserveRef
+import CoapVerif.Lemmas.ObserveAbsent
+import CoapVerif.Lemmas.ObserveWake
+import CoapVerif.Lemmas.ObserveVer
+import CoapVerif.Lemmas.ObserveStale
 /-
 C11 — Observe: registered observers get fresh, ordered notifications until cancelled.
 Property theorems about M (CoapVerif/Model/Observe.lean), which T2 ties to the compiled libcoap on every run.
@@ -273,9 +279,9 @@ theorem reclaim_keeps_referenced (st : State) (c : Nat) (s : Sess) (h : st.sess 
   rw [if_neg (by omega)]
 
 /-- … and a new entry takes a reference (coap_session_reference in coap_add_observer).
-    FULL STATEMENT (not proved here, checked by T2 on every event of every history: the `S<c>=ref` field of the state
-    dump): for all event sequences, `ref c = #entries of c in all resources + #send-queue nodes of c`, hence ≥ 1 while an
-    entry refers to the session, hence — by `reclaim_keeps_referenced` — the session object exists. -/
+    FULL STATEMENT: for all event sequences, `ref c = #entries of c in all resources + #send-queue nodes of c`, hence ≥ 1 while
+    an entry refers to the session, hence — by `reclaim_keeps_referenced` — the session object exists.  Now PROVED as a global
+    invariant: `ref_eq_holders`, `session_alive_while_observed`, `idle_reclaim_keeps_observed` below (this local lemma is kept). -/
 theorem session_alive_while_observed_partial (st : State) (r c tok key : Nat) (x : Res) (hx : findRes st r = some x)
     (hnew : x.subs.any (matchST c tok) = false) (hkey : x.subs.find? (matchSK c key) = none) :
     ((addObserver st r c tok key).sess c).map (·.ref) = some ((getSess st c).ref + 1) := by
@@ -308,3 +314,648 @@ theorem reset_of_notification_removes_partial (st : State) (c mid rid tok : Nat)
   rw [hq]
   dsimp only
   rw [hm]
+
+/-! ## GLOBAL statements: invariants over ALL event sequences (Lemmas/ObserveRun.lean, ObserveInv.lean, ObserveRef.lean) -/
+
+/-! ### GLOBAL: ordering over whole runs -/
+/-- two datagrams of a run address the same observation: same session, token and resource -/
+def SameObs (a b : Out) : Prop := a.c = b.c ∧ a.token = b.token ∧ a.res = b.res
+
+/-- the start value of a resource's counter, extrapolated back to version 0 -/
+def baseOf (st : State) (rid : Nat) : Nat :=
+  match st.res.find? (fun y => y.id == rid) with
+  | some y => (y.observe + 16777216 - y.ver % 16777216) % 16777216
+  | none => 0
+
+theorem baseOf_spec (st : State) (hid : IdsNodup st) (hobs : ∀ y ∈ st.res, y.observe < 16777216) :
+    ∀ y ∈ st.res, y.observe = (baseOf st y.id + y.ver) % 16777216 := by
+  intro y hy
+  unfold baseOf
+  cases hf : st.res.find? (fun z => z.id == y.id) with
+  | none =>
+    have := List.find?_eq_none.mp hf y hy
+    simp at this
+  | some z =>
+    have h1 := List.mem_of_find?_eq_some hf
+    have h2 := List.find?_some hf
+    simp at h2
+    have : z = y := eq_of_id_eq hid h1 hy h2
+    subst this
+    dsimp only
+    have := hobs z hy
+    omega
+
+theorem pair_of_filtered {l : List Out} {p : Out → Bool} {R : Out → Out → Prop} (h : (l.filter p).Pairwise R) {a b : Out}
+    (hab : [a, b].Sublist l) (ha : p a = true) (hb : p b = true) : R a b := by
+  have h1 := hab.filter p
+  have h2 : [a, b].filter p = [a, b] := by simp [List.filter, ha, hb]
+  rw [h2] at h1
+  exact List.pairwise_iff_forall_sublist.mp h h1
+
+/-- observe_strictly_increasing END TO END.  In EVERY run (any start state with distinct resource ids, no duplicate entries
+    and 24-bit counters, any event sequence), of any two notifications (2.05, written by the notify loop) to the same
+    (session, token, resource) the later one reports a strictly later state of the resource (`ver` = number of effective
+    changes: between two notifications to one entry the resource counter HAS advanced), and its Observe value is greater in
+    the 24-bit serial sense whenever fewer than 2^23 changes lie between the two — in particular between consecutive ones. -/
+theorem observe_strictly_increasing_run (st : State) (evs : List Event) (hid : IdsNodup st) (hnd : NoDupSt st)
+    (hobs : ∀ y ∈ st.res, y.observe < 16777216) :
+    (run st evs).2.Pairwise (fun a b => isNotif a = true → isNotif b = true → SameObs a b →
+      a.ver < b.ver ∧ ∀ x z, a.obs = some x → b.obs = some z → b.ver - a.ver < 8388608 → serialGt z x) := by
+  rw [List.pairwise_iff_forall_sublist]
+  intro a b hab hna hnb hso
+  obtain ⟨hc, ht, hr⟩ := hso
+  have hamem : a ∈ (run st evs).2 := hab.subset (List.mem_cons_self ..)
+  have hbmem : b ∈ (run st evs).2 := hab.subset (List.mem_cons_of_mem _ (List.mem_cons_self ..))
+  have hatag : a.tag = .note := by unfold isNotif at hna; simp at hna; exact hna.1
+  have hbtag : b.tag = .note := by unfold isNotif at hnb; simp at hnb; exact hnb.1
+  -- the resource they are about exists
+  have hres : a.res ∈ resIds (run st evs).1 := by rw [run_ids]; exact run_notes evs st a hamem hatag
+  obtain ⟨y, hy, hyid⟩ := List.mem_map.mp hres
+  have hord := run_ordInv st evs hid hnd a.c a.token y hy
+  have hval := run_valInv st evs hid (baseOf st) (baseOf_spec st hid hobs) y hy
+  have hfa : fromRes y.id a = true := by simp [fromRes, hatag, hyid]
+  have hfb : fromRes y.id b = true := by simp [fromRes, hbtag, hyid, ← hr]
+  have hlt : a.ver < b.ver := by
+    have hs := hord.sorted
+    unfold notifsTo at hs
+    rw [List.filter_filter, List.filter_filter] at hs
+    refine pair_of_filtered hs hab ?_ ?_
+    · simp [hna, hfa, toST]
+    · simp [hnb, hfb, toST, ← hc, ← ht]
+  refine ⟨hlt, ?_⟩
+  intro x z hx hz hk
+  have h1 := hval.outs a (List.mem_filter.mpr ⟨hamem, hfa⟩) hna
+  have h2 := hval.outs b (List.mem_filter.mpr ⟨hbmem, hfb⟩) hnb
+  rw [hx] at h1; rw [hz] at h2
+  simp only [Option.some.injEq] at h1 h2
+  rw [h1, h2]
+  unfold serialGt
+  omega
+
+
+/-- (1) from an INITIAL state: no invariant hypothesis left -/
+theorem observe_strictly_increasing_run_init (res : List Res) (stTicks : Nat) (evs : List Event)
+    (hids : (res.map (·.id)).Nodup) (hsubs : ∀ y ∈ res, y.subs = []) (hobs : ∀ y ∈ res, y.observe < 16777216) :
+    (run (init res stTicks) evs).2.Pairwise (fun a b => isNotif a = true → isNotif b = true → SameObs a b →
+      a.ver < b.ver ∧ ∀ x z, a.obs = some x → b.obs = some z → b.ver - a.ver < 8388608 → serialGt z x) :=
+  observe_strictly_increasing_run (init res stTicks) evs hids
+    (by intro y hy; unfold NoDup; rw [hsubs y hy]; exact List.Pairwise.nil) hobs
+
+example : ∀ y ∈ [mkRes 0 false false 16777214, mkRes 1 true false 4294967295], y.observe < 16777216 := by decide
+
+/-! witness: the hypotheses are satisfiable and the statement bites — a run across the 24-bit wrap with a burst of changes -/
+def runStart : State := init [mkRes 0 false false 16777214, mkRes 1 true false 7] 30000
+def runEvents : List Event :=
+  [.reg 0 0 1 0 true 1, .chg 0, .adv 0, .chg 0, .chg 0, .adv 0, .chg 0, .adv 0, .chg 0, .adv 0, .chg 0, .adv 0,
+   .chg 0, .adv 0, .chg 0, .adv 0]
+instance (st : State) : Decidable (IdsNodup st) := by unfold IdsNodup; exact inferInstance
+instance (a b : Nat) : Decidable (serialGt a b) := by unfold serialGt; exact inferInstance
+example : IdsNodup runStart := by decide
+example : NoDupSt runStart := by
+  intro y hy; unfold NoDup
+  simp [runStart, init, mkRes] at hy
+  rcases hy with rfl | rfl <;> exact List.Pairwise.nil
+example : ∀ y ∈ runStart.res, y.observe < 16777216 := by decide
+example : ((run runStart runEvents).2.filter fun o => isNotif o).map (fun o => (o.obs, o.ver)) =
+    [(some 16777215, 1), (some 1, 3), (some 2, 4), (some 3, 5), (some 4, 6), (some 5, 7), (some 6, 8)] := by decide
+example : serialGt 1 16777215 := by decide
+
+/-- the version a resource has in a given state -/
+def verOf (st : State) (rid : Nat) : Nat :=
+  match st.res.find? (fun y => y.id == rid) with
+  | some y => y.ver
+  | none => 0
+
+theorem verOf_spec (st : State) (hid : IdsNodup st) : ∀ y ∈ st.res, verOf st y.id = y.ver := by
+  intro y hy
+  unfold verOf
+  cases hf : st.res.find? (fun z => z.id == y.id) with
+  | none =>
+    have := List.find?_eq_none.mp hf y hy
+    simp at this
+  | some z =>
+    have h1 := List.mem_of_find?_eq_some hf
+    have h2 := List.find?_some hf
+    simp at h2
+    rw [eq_of_id_eq hid h1 hy h2]
+
+/-- observe_strictly_increasing end to end, with the hypothesis on the EVENTS: in a run with fewer than 2^23 change-signalling
+    events (`chg`, `del`) — a fortiori between any two notifications — of any two notifications to the same (session, token,
+    resource) the later one carries the serially greater Observe value.  No ghost quantity in the statement. -/
+theorem observe_strictly_increasing_run_events (st : State) (evs : List Event) (hid : IdsNodup st) (hnd : NoDupSt st)
+    (hobs : ∀ y ∈ st.res, y.observe < 16777216) (hfew : chgTotal evs < 8388608) :
+    (run st evs).2.Pairwise (fun a b => isNotif a = true → isNotif b = true → SameObs a b →
+      ∀ x z, a.obs = some x → b.obs = some z → serialGt z x) := by
+  refine List.Pairwise.imp_of_mem ?_ (observe_strictly_increasing_run st evs hid hnd hobs)
+  intro a b hamem hbmem hR hna hnb hso x z hx hz
+  obtain ⟨hlt, hser⟩ := hR hna hnb hso
+  refine hser x z hx hz ?_
+  -- the resource the two notifications are about, at the end and at the start of the run
+  have hbtag : b.tag = .note := by unfold isNotif at hnb; simp at hnb; exact hnb.1
+  have hatag : a.tag = .note := by unfold isNotif at hna; simp at hna; exact hna.1
+  have hres : b.res ∈ resIds (run st evs).1 := by rw [run_ids]; exact run_notes evs st b hbmem hbtag
+  obtain ⟨y, hy, hyid⟩ := List.mem_map.mp hres
+  obtain ⟨y0, hy0, hid0, hv0⟩ := All2.exists_right (run_verLe evs st hid) y hy
+  have hfb : fromRes y.id b = true := by simp [fromRes, hbtag, hyid]
+  have hfa : fromRes y.id a = true := by simp [fromRes, hatag, hyid, hso.2.2]
+  -- upper bound for b
+  have hord := run_ordInv st evs hid hnd b.c b.token y hy
+  have hbin : b ∈ notifsTo b.c b.token ((run st evs).2.filter (fromRes y.id)) := by
+    unfold notifsTo
+    rw [List.mem_filter, List.mem_filter, List.mem_filter]
+    exact ⟨⟨⟨hbmem, hfb⟩, by simp [toST]⟩, hnb⟩
+  have hub := (hord.bound b hbin).1
+  -- lower bound for a
+  have hlow := run_lowInv st evs hid (verOf st) (fun z hz => by rw [verOf_spec st hid z hz]; exact Nat.le_refl _) y hy
+  have hlb := hlow.outs a (List.mem_filter.mpr ⟨hamem, hfa⟩) hna
+  rw [hid0, verOf_spec st hid y0 hy0] at hlb
+  omega
+
+example : chgTotal runEvents = 8 := by decide
+
+/-- the 2.05 notifications of a run to observation (session c, token tok) of resource rid, in order -/
+def notificationsTo (rid c tok : Nat) (outs : List Out) : List Out := notifsTo c tok (outs.filter (fromRes rid))
+
+/-- every_sixth_con OVER WHOLE RUNS.  From any state with distinct resource ids, a resource `rid` without NOTIFY_NON_ALWAYS (D8),
+    no duplicate entries and NON counters in range (all invariants of every run: `run_idsNodup`, `reregistration_replaces`,
+    `nonCnt_in_range`), over ANY event sequence in which (c, tok) does not register anew on rid — i.e. within one registration
+    epoch of the entry — every window of COAP_OBS_MAX_NON + 1 consecutive notifications to that entry contains a Confirmable
+    one. -/
+theorem every_sixth_con_run (st : State) (evs : List Event) (rid c tok : Nat) (hid : IdsNodup st)
+    (h0 : ∀ y ∈ st.res, y.id = rid → NoDup y ∧ y.fNonAlways = false ∧ NonCntOk y)
+    (hepoch : ∀ e ∈ evs, ¬ RegEv e rid c tok) :
+    ∀ pre w post, (notificationsTo rid c tok (run st evs).2).map isConOut = pre ++ w ++ post → w.length = obsMaxNon + 1 →
+      true ∈ w := by
+  intro pre w post heq hl
+  by_cases hex : ∃ y ∈ (run st evs).1.res, y.id = rid
+  · obtain ⟨y, hy, hyid⟩ := hex
+    have := (run_cadInv st evs hid rid c tok hepoch h0 y hy hyid).window
+    unfold kindsTo at this
+    rw [hyid] at this
+    unfold notificationsTo at heq
+    rw [heq] at this
+    exact windowOk_window pre w post 0 this hl
+  · -- no such resource: nothing is ever written about it
+    exfalso
+    have hnil : notificationsTo rid c tok (run st evs).2 = [] := by
+      unfold notificationsTo notifsTo
+      rw [List.filter_filter, List.filter_filter, List.filter_eq_nil_iff]
+      intro a ha hp
+      simp [isNotif, fromRes] at hp
+      have := run_notes evs st a ha hp.1.1.1
+      rw [← run_ids st evs] at this
+      obtain ⟨y, hy, hyid⟩ := List.mem_map.mp this
+      exact hex ⟨y, hy, hyid.trans hp.2.2⟩
+    rw [hnil] at heq
+    have : w = [] := by
+      have h1 := congrArg List.length heq
+      simp at h1
+      exact List.eq_nil_of_length_eq_zero (by omega)
+    subst this
+    simp at hl
+
+/-- the range of the NON counter is an invariant of every run -/
+theorem nonCnt_in_range (st : State) (evs : List Event) (hid : IdsNodup st) (h : ∀ y ∈ st.res, NonCntOk y) :
+    ∀ y ∈ (run st evs).1.res, NonCntOk y := run_nonCntOk st evs hid h
+
+
+example : ∀ y ∈ runStart.res, y.id = 0 → NoDup y ∧ y.fNonAlways = false ∧ NonCntOk y := by
+  intro y hy hid
+  simp [runStart, init, mkRes] at hy
+  rcases hy with rfl | rfl
+  · exact ⟨List.Pairwise.nil, rfl, fun o ho => by cases ho⟩
+  · cases hid
+example : ∀ e ∈ runEvents.tail, ¬ RegEv e 0 0 1 := by
+  intro e he ⟨key, con, mid, h⟩
+  subst h
+  simp [runEvents] at he
+example : (notificationsTo 0 0 1 (run runStart runEvents).2).map isConOut = [false, false, false, false, false, true, false] := by decide
+
+/-- every_sixth_con from an INITIAL state, no invariant hypothesis left: after any prefix `pre`, over any continuation `evs`
+    within one registration epoch of (c, tok) on rid -/
+theorem every_sixth_con_run_init (res : List Res) (stTicks : Nat) (pre evs : List Event) (rid c tok : Nat)
+    (hids : (res.map (·.id)).Nodup) (hsubs : ∀ y ∈ res, y.subs = []) (hflag : ∀ y ∈ res, y.id = rid → y.fNonAlways = false)
+    (hepoch : ∀ e ∈ evs, ¬ RegEv e rid c tok) :
+    ∀ p w q, (notificationsTo rid c tok (run (run (init res stTicks) pre).1 evs).2).map isConOut = p ++ w ++ q →
+      w.length = obsMaxNon + 1 → true ∈ w := by
+  have hid0 : IdsNodup (init res stTicks) := hids
+  have hnd0 : NoDupSt (init res stTicks) := by
+    intro y hy; unfold NoDup; rw [hsubs y hy]; exact List.Pairwise.nil
+  have hflags : ∀ y ∈ (run (init res stTicks) pre).1.res, y.id = rid → y.fNonAlways = false := by
+    have := run_resInv (Q := fun y _ => y.id = rid → y.fNonAlways = false) (fun _ => True)
+      (fun e _ y o y' _ hq hm hy' => by rw [hm.fixed.2.2]; exact hq (hm.fixed.1 ▸ hy'))
+      pre (init res stTicks) [] hid0 (fun _ _ => trivial) (fun y hy => hflag y hy)
+    exact this
+  refine every_sixth_con_run _ evs rid c tok (run_idsNodup _ pre hid0) ?_ hepoch
+  intro y hy hyid
+  exact ⟨run_noDup pre _ hnd0 y hy, hflags y hy hyid,
+    run_nonCntOk _ pre hid0 (fun z hz o ho => by rw [hsubs z hz] at ho; cases ho) y hy⟩
+
+example : ∀ e ∈ ([.chg 0, .adv 0, .chg 0, .adv 0] : List Event), ¬ RegEv e 0 0 1 := by
+  intro e he ⟨key, con, mid, h⟩
+  subst h
+  simp at he
+
+/-! ### GLOBAL: the session stays alive while it has observers -/
+/-- session_alive_while_observed, FULL: `ref(session) = #observer entries of it in all resources + #its queued nodes` (application
+    references are 0 in M) is an invariant of EVERY run from any state with distinct resource ids in which it holds (e.g. `init`
+    with empty subscriber lists, `ref_eq_holders_init`). -/
+theorem ref_eq_holders (st : State) (evs : List Event) (hid : IdsNodup st) (h : RefInv st) :
+    ∀ c, (getSess (run st evs).1 c).ref = entriesOf (run st evs).1 c + nodesOf (run st evs).1 c :=
+  run_refInv st evs hid h
+
+theorem ref_eq_holders_init (res : List Res) (stTicks : Nat) (hs : ∀ y ∈ res, y.subs = []) (hn : (res.map (·.id)).Nodup)
+    (evs : List Event) : RefInv (run (init res stTicks) evs).1 :=
+  run_refInv _ evs hn (init_refInv res stTicks hs)
+
+/-- … hence in every reachable state the session object of every listed observer exists and is referenced (ref ≥ 1) … -/
+theorem session_alive_while_observed (st : State) (evs : List Event) (hid : IdsNodup st) (h : RefInv st) :
+    ∀ y ∈ (run st evs).1.res, ∀ o ∈ y.subs, ∃ s, (run st evs).1.sess o.sess = some s ∧ 1 ≤ s.ref :=
+  Coap.Observe.session_alive_while_observed st evs hid h
+
+/-- … likewise while a Confirmable notification to it is still queued for retransmission … -/
+theorem session_alive_while_queued (st : State) (evs : List Event) (hid : IdsNodup st) (h : RefInv st) :
+    ∀ q ∈ (run st evs).1.sendq, ∃ s, (run st evs).1.sess q.sess = some s ∧ 1 ≤ s.ref :=
+  Coap.Observe.session_alive_while_queued st evs hid h
+
+/-- … and the idle reclaim of coap_io_prepare_io never frees it, in any reachable state. -/
+theorem idle_reclaim_keeps_observed (st : State) (evs : List Event) (hid : IdsNodup st) (h : RefInv st) :
+    ∀ y ∈ (run st evs).1.res, ∀ o ∈ y.subs, (reclaim (run st evs).1).sess o.sess = (run st evs).1.sess o.sess :=
+  reclaim_keeps_observed _ (run_refInv st evs hid h)
+
+example : RefInv runStart := init_refInv _ _ (by decide)
+example : (getSess (run runStart runEvents).1 0).ref = 2 ∧ entriesOf (run runStart runEvents).1 0 = 1 ∧
+    nodesOf (run runStart runEvents).1 0 = 1 := by decide
+
+/-! ### GLOBAL: after deregistration no further notification — run level, one theorem per cause
+`NoteTo out r c tok`: `out` is a datagram written by the notify loop (tag `.note`, ANY code) to (session c, token tok) about
+resource r.  `isRegOf e c r tok`: the event is a registration request (Observe = 0) of (c, tok) on r.  `Absent st r c tok`:
+no alive resource with id r lists (c, tok).  Retransmissions (tag `.rtx`) of a Confirmable notification written BEFORE the
+deregistration are not new notifications; coap_delete_observer does not cancel them (see Lemmas/ObserveAbsent.lean). -/
+
+/-- the engine, for ALL states and event sequences: while (c, tok) is not listed on r and does not register anew, nothing is
+    written to it and it stays unlisted -/
+theorem no_notification_while_absent (st : State) (evs : List Event) (r c tok : Nat) (h : Absent st r c tok)
+    (hne : ∀ e ∈ evs, ¬ isRegOf e c r tok) :
+    Absent (run st evs).1 r c tok ∧ ∀ out ∈ (run st evs).2, ¬ NoteTo out r c tok :=
+  Coap.Observe.no_notification_while_absent st evs r c tok h hne
+
+/-- cause 1, Observe = 1 request: from the cancel request on (its own I/O step included) and over any continuation without a
+    new registration of (c, tok) on r, no notification to (c, tok) about r -/
+theorem no_notification_after_cancel_run (st : State) (c r tok key : Nat) (con : Bool) (mid : Nat) (evs : List Event)
+    (hid : IdsNodup st) (hnd : NoDupSt st) (hne : ∀ e ∈ evs, ¬ isRegOf e c r tok) :
+    ∀ out ∈ (run st (.can c r tok key con mid :: evs)).2, ¬ NoteTo out r c tok :=
+  no_notification_after_cancel_request_run st c r tok key con mid evs hid hnd hne
+
+/-- cause 2, Reset in reply to a notification — PARTIAL: the Reset names (i) a Confirmable notification still in the send queue
+    (then the token is removed from EVERY resource: coap_cancel) or (ii) the LATEST notification of an entry (`obs->pdu->mid`).
+    FULL STATEMENT (false for the pinned code, open finding rst_of_superseded_notification_ignored, witness
+    `supersededWitness`): "… names ANY notification sent to the entry under its current registration". -/
+theorem no_notification_after_reset_run_partial (st : State) (c n : Nat) (nt : Note) (evs : List Event)
+    (hid : IdsNodup st) (hnd : NoDupSt st) (hl : lookupNote st c n = some nt) :
+    (∀ q, (rxSession st c).sendq.find? (matchQ c nt.mid) = some q →
+        ∀ r', (∀ e ∈ evs, ¬ isRegOf e c r' q.token) →
+          ∀ out ∈ (run st (.rst c n :: evs)).2, ¬ NoteTo out r' c q.token) ∧
+    (∀ rid tok, (rxSession st c).sendq.find? (matchQ c nt.mid) = none →
+        findByMid (rxSession st c).res c nt.mid = some (rid, tok) →
+        (∀ e ∈ evs, ¬ isRegOf e c rid tok) →
+          ∀ out ∈ (run st (.rst c n :: evs)).2, ¬ NoteTo out rid c tok) :=
+  Coap.Observe.no_notification_after_reset_run_partial st c n nt evs hid hnd hl
+
+/-- cause 3, failed Confirmable notification: the I/O step `adv ms` in which the retransmission loop gives up on node q
+    (`GivenUp`: q is popped with its retransmission count exhausted) removes (q.sess, q.token) from every resource
+    (COAP_OBS_MAX_FAIL = 1 as extracted; `FailZero`: fail counters are 0 between steps — an invariant, `run_failZero`) -/
+theorem no_notification_after_failed_notify_run (st : State) (ms : Nat) (q : QNode) (evs : List Event)
+    (hid : IdsNodup st) (hnd : NoDupSt st) (hfz : FailZero st)
+    (hg : GivenUp ((checkNotify { st with now := st.now + ms }).1.sendq.length + 1) (checkNotify { st with now := st.now + ms }).1 q)
+    (r' : Nat) (hne : ∀ e ∈ evs, ¬ isRegOf e q.sess r' q.token) :
+    ∀ out ∈ (run (step st (.adv ms)).1 evs).2, ¬ NoteTo out r' q.sess q.token :=
+  no_notification_after_failed_notify_adv_run st ms q evs hid hnd hfz hg r' hne
+
+/-- cause 4a, error response to the (re-)registration request itself (read off the response: 4.04) -/
+theorem no_notification_after_error_response_run (st : State) (c r tok key : Nat) (con : Bool) (mid : Nat) (out : Out)
+    (evs : List Event) (hid : IdsNodup st) (hnd : NoDupSt st) (ho : out ∈ (step st (.reg c r tok key con mid)).2)
+    (htag : out.tag = .resp) (hcode : out.code = 132) (hne : ∀ e ∈ evs, ¬ isRegOf e c r tok) :
+    ∀ out' ∈ (run st (.reg c r tok key con mid :: evs)).2, ¬ NoteTo out' r c tok :=
+  no_notification_after_error_response_output_run st c r tok key con mid out evs hid hnd ho htag hcode hne
+
+/-- cause 4b, error response produced by the handler while notifying: whatever event's I/O step wrote a 4.04 "notification" to
+    (c, tok) about r, that was the last datagram of the notify loop to it -/
+theorem no_notification_after_error_notification_run (st : State) (e : Event) (evs : List Event) (r c tok : Nat) (out : Out)
+    (hid : IdsNodup st) (hnd : NoDupSt st) (ho : out ∈ (step st e).2) (hn : NoteTo out r c tok) (hcode : out.code = 132)
+    (hne : ∀ e ∈ evs, ¬ isRegOf e c r tok) :
+    ∀ out' ∈ (run (step st e).1 evs).2, ¬ NoteTo out' r c tok :=
+  Coap.Observe.no_notification_after_error_notification_run st e evs r c tok out hid hnd ho hn hcode hne
+
+/-- cause 5, session loss: for every resource and token of that session -/
+theorem no_notification_after_session_loss_run (st : State) (c : Nat) (s0 : Sess) (evs : List Event)
+    (h : st.sess c = some s0) (r tok : Nat) (hne : ∀ e ∈ evs, ¬ isRegOf e c r tok) :
+    ∀ out ∈ (run st (.lost c :: evs)).2, ¬ NoteTo out r c tok :=
+  Coap.Observe.no_notification_after_session_loss_run st c s0 evs h r tok hne
+
+theorem sum_eq_zero_mem : ∀ (l : List Nat), l.sum = 0 → ∀ x ∈ l, x = 0
+  | [], _, x, hx => by cases hx
+  | a :: t, h, x, hx => by
+    simp only [List.sum_cons] at h
+    cases hx with
+    | head => omega
+    | tail _ hx' => exact sum_eq_zero_mem t (by omega) x hx'
+
+/-- under the reference-count invariant a session the server holds no object for has no observer entries -/
+theorem no_entries_without_session (st : State) (h : RefInv st) (c : Nat) (hc : st.sess c = none) :
+    ∀ y ∈ st.res, ∀ s ∈ y.subs, s.sess ≠ c := by
+  have h1 := h c
+  have h2 : (getSess st c).ref = 0 := by unfold getSess; rw [hc]; rfl
+  have h3 : entriesOf st c = 0 := by omega
+  intro y hy s hs heq
+  unfold entriesOf at h3
+  have := sum_eq_zero_mem _ h3 _ (List.mem_map_of_mem (f := fun x => (x.subs.filter fun s => s.sess == c).length) hy)
+  have hmem : s ∈ y.subs.filter fun s => s.sess == c := List.mem_filter.mpr ⟨hs, by simp [heq]⟩
+  have : (y.subs.filter fun s => s.sess == c) = [] := List.eq_nil_of_length_eq_zero this
+  rw [this] at hmem; cases hmem
+
+/-- cause 5 without the side condition "the server still holds the session object": in every reachable state (RefInv) -/
+theorem no_notification_after_session_loss_run_any (st : State) (c : Nat) (evs : List Event) (h : RefInv st) (r tok : Nat)
+    (hne : ∀ e ∈ evs, ¬ isRegOf e c r tok) :
+    ∀ out ∈ (run st (.lost c :: evs)).2, ¬ NoteTo out r c tok := by
+  cases hc : st.sess c with
+  | some s0 => exact no_notification_after_session_loss_run st c s0 evs hc r tok hne
+  | none =>
+    have habs : Absent st r c tok := by
+      intro y hy _ _ s hs
+      have := no_entries_without_session st h c hc y hy s hs
+      unfold matchST
+      simp [this]
+    refine (no_notification_while_absent st (.lost c :: evs) r c tok habs ?_).2
+    intro e he
+    cases he with
+    | head => intro hh; simp [isRegOf, isRegOfB] at hh
+    | tail _ he' => exact hne e he'
+
+example : ∀ out ∈ (run (run runStart [.reg 0 0 1 0 true 1, .chg 0, .adv 0]).1 [.lost 0, .chg 0, .adv 0, .adv 40000, .lost 0, .chg 0, .adv 0]).2,
+    ¬ NoteTo out 0 0 1 :=
+  no_notification_after_session_loss_run_any _ 0 _ (run_refInv _ _ (by decide) (init_refInv _ _ (by decide))) 0 1 (by decide)
+
+/-- cause 6, resource deletion: after the `.del` step (which writes the 4.04 goodbyes, `goodbye_on_resource_deletion`) nothing
+    is ever written about r again — for every session and token, over ANY continuation, registration attempts included -/
+theorem no_notification_after_resource_deletion_run (st : State) (r : Nat) (evs : List Event) :
+    ∀ c tok, ∀ out ∈ (run (step st (.del r)).1 evs).2, ¬ NoteTo out r c tok :=
+  Coap.Observe.no_notification_after_resource_deletion_run st r evs
+
+/-- the well-formedness hypotheses used above are invariants of every run from an initial state -/
+theorem deregistration_invariants_init (res : List Res) (stTicks : Nat) (evs : List Event) (hids : (res.map (·.id)).Nodup)
+    (hsubs : ∀ y ∈ res, y.subs = []) :
+    IdsNodup (run (init res stTicks) evs).1 ∧ NoDupSt (run (init res stTicks) evs).1 ∧ FailZero (run (init res stTicks) evs).1 :=
+  invariants_of_init res stTicks evs hids hsubs
+
+/-- witness: notified before the cancel, never after it — until it registers again -/
+example : ∃ out ∈ (run runStart [.reg 0 0 1 0 true 1, .chg 0, .adv 0]).2, NoteTo out 0 0 1 := by decide
+example : ∀ out ∈ (run (run runStart [.reg 0 0 1 0 true 1, .chg 0, .adv 0]).1 [.can 0 0 1 0 true 2, .chg 0, .adv 0, .chg 0, .adv 0]).2,
+    ¬ NoteTo out 0 0 1 :=
+  no_notification_after_cancel_run _ 0 0 1 0 true 2 _ (run_idsNodup _ _ (by decide))
+    (run_noDup _ _ (by intro y hy; unfold NoDup; simp [runStart, init, mkRes] at hy; rcases hy with rfl | rfl <;> exact List.Pairwise.nil))
+    (by decide)
+example : ∃ out ∈ (run (run runStart [.reg 0 0 1 0 true 1, .chg 0, .adv 0]).1
+    [.can 0 0 1 0 true 2, .reg 0 0 1 0 true 3, .chg 0, .adv 0]).2, NoteTo out 0 0 1 := by decide
+
+
+/-! ### GLOBAL: the last state is always eventually notified
+Three run-level statements: (a) no lost wake-up — an entry that has not been told the resource's current state (resource dirty
+or entry dirty) keeps `observe_pending` and the resource's dirty/partiallydirty flag set, in EVERY reachable state, so every
+later I/O step walks it; (b) an entry that is NOT stale has been sent the resource's current state (by a notification or by the
+2.05 response to its registration); (c) under the explicit fairness hypothesis — when the walk reaches the entry it is not
+back-pressured, i.e. its session has fewer than NSTART Confirmables in flight (they were acknowledged or given up) or the
+notification may go Non-confirmable — the I/O step writes the notification carrying the then-current (latest) state. -/
+
+/-- (a) no lost wake-up, for ALL event sequences -/
+theorem stale_entry_keeps_wakeup (st : State) (evs : List Event) (hid : IdsNodup st) (h : Wake st) :
+    ∀ y ∈ (run st evs).1.res, y.alive = true → ∀ o ∈ y.subs, (y.dirty = true ∨ o.dirty = true) →
+      (run st evs).1.pending = true ∧ (y.dirty = true ∨ y.pdirty = true) := by
+  obtain ⟨hw, hpd⟩ := run_wake st evs hid h
+  intro y hy hal o ho hst
+  refine ⟨hw ⟨y, hy, ?_⟩, ?_⟩
+  · rcases hst with hst | hst
+    · exact Or.inl hst
+    · exact Or.inr ⟨hal, o, ho, hst⟩
+  · rcases hst with hst | hst
+    · exact Or.inl hst
+    · exact Or.inr (hpd y hy o ho hst)
+
+/-- (b) for ALL event sequences: an entry that is not stale holds the latest state — some datagram of the run told it the
+    resource's current Observe value and version -/
+theorem clean_entry_holds_latest (st : State) (evs : List Event) (hid : IdsNodup st) (h0 : ∀ y ∈ st.res, LiveInv y []) :
+    ∀ y ∈ (run st evs).1.res, y.alive = true → y.dirty = false → ∀ o ∈ y.subs, o.dirty = false →
+      ∃ a ∈ (run st evs).2, a.res = y.id ∧ Told a o.sess o.token y.observe y.ver := by
+  intro y hy hal hd o ho hod
+  obtain ⟨a, ha, hta⟩ := (run_liveInv st evs hid h0 y hy).told hal hd o ho hod
+  obtain ⟨ha1, ha2⟩ := List.mem_filter.mp ha
+  refine ⟨a, ha1, ?_, hta⟩
+  simp [fromRes] at ha2
+  exact ha2.2
+
+/-- (c) latest_eventually_notified at RUN level under the explicit fairness hypothesis `hfair`: after any run, if the I/O loop
+    runs (`adv ms`) and entry `o` of the alive, healthy resource `y` is stale and not back-pressured at its turn, the run's
+    output gains the notification to (o.sess, o.token) carrying y's CURRENT Observe value and version. -/
+theorem latest_eventually_notified_run (st0 : State) (evs : List Event) (ms : Nat) (hid : IdsNodup st0) (hw : Wake st0)
+    (pre post : List Res) (y : Res) (spre spost : List Sub) (o : Sub)
+    (hres : (run st0 evs).1.res = pre ++ y :: post) (hsubs : y.subs = spre ++ o :: spost)
+    (hal : y.alive = true) (herr : y.err = false) (hst : y.dirty = true ∨ o.dirty = true)
+    (hfair : backPressured (turnState { (run st0 evs).1 with now := (run st0 evs).1.now + ms } pre y spre) y o = false) :
+    ∃ out ∈ (run st0 (evs ++ [.adv ms])).2, out.tag = .note ∧ out.c = o.sess ∧ out.token = o.token ∧ out.res = y.id ∧
+      out.code = 69 ∧ out.obs = some y.observe ∧ out.ver = y.ver := by
+  have hy : y ∈ (run st0 evs).1.res := by rw [hres]; simp
+  have ho : o ∈ y.subs := by rw [hsubs]; simp
+  obtain ⟨hp, hwalk⟩ := stale_entry_keeps_wakeup st0 evs hid hw y hy hal o ho hst
+  obtain ⟨out, o', hout, _, h1, h2, h3, h4, h5, _⟩ :=
+    notification_per_observer y o (turnState { (run st0 evs).1 with now := (run st0 evs).1.now + ms } pre y spre) hst hfair herr
+  have hmem := io_outs_of_turn { (run st0 evs).1 with now := (run st0 evs).1.now + ms } pre post y spre spost o hres hsubs hp hal hwalk
+    out (by rw [hout]; simp)
+  refine ⟨out, ?_, h1, h2, h3, ?_, h4, h5, ?_⟩
+  · rw [run_append]
+    apply List.mem_append_right
+    simp only [run_cons, run_nil, List.append_nil]
+    exact hmem
+  · have := (notifyOne_visit false y o (turnState { (run st0 evs).1 with now := (run st0 evs).1.now + ms } pre y spre)).out_fields out
+      (by rw [hout]; simp)
+    exact this.2.2.2.1
+  · have := (notifyOne_visit false y o (turnState { (run st0 evs).1 with now := (run st0 evs).1.now + ms } pre y spre)).out_fields out
+      (by rw [hout]; simp)
+    exact this.2.2.2.2
+
+/-- the fairness hypothesis is met whenever the session has fewer than NSTART Confirmables in flight at that moment … -/
+theorem fair_when_acknowledged (st : State) (y : Res) (o : Sub) (h : (getSess st o.sess).conActive < obsNstart) :
+    backPressured st y o = false := by
+  unfold backPressured
+  simp [Nat.not_le.mpr h]
+
+/-- … and always for an entry whose next notification may go Non-confirmable -/
+theorem fair_when_non (st : State) (y : Res) (o : Sub) (h1 : y.fCon = false) (h2 : o.nonCnt < obsMaxNon) :
+    backPressured st y o = false := by
+  unfold backPressured
+  simp [h1, Nat.not_le.mpr h2]
+
+/-- the wake-up invariant and `LiveInv` hold initially -/
+theorem wake_holds_initially (res : List Res) (stTicks : Nat) (h : ∀ y ∈ res, y.subs = [] ∧ y.dirty = false) :
+    Wake (init res stTicks) ∧ ∀ y ∈ (init res stTicks).res, LiveInv y [] :=
+  ⟨wake_init res stTicks h, liveInv_init res (fun y hy => (h y hy).1)⟩
+
+/-- witness: NOTIFY_CON resource 1, second change while the first Confirmable is in flight → the entry is deferred (stale, flags
+    set); after the ACK the I/O step tells it the latest value -/
+def lateEvents : List Event := [.reg 0 1 2 0 true 1, .chg 1, .adv 0, .chg 1, .adv 0]
+example : ∀ y ∈ [mkRes 0 false false 16777214, mkRes 1 true false 7], y.subs = [] ∧ y.dirty = false := by decide
+example : ((run runStart lateEvents).1.res.map fun y => (y.dirty, y.pdirty, y.subs.map (·.dirty))) = [(false, false, []), (false, true, [true])] ∧
+    (run runStart lateEvents).1.pending = true := by decide
+/-- … and an instance of (c): a burst of two changes, then the I/O step -/
+def lateSt : State := (run runStart [.reg 0 0 1 0 true 1, .chg 0, .chg 0]).1
+def lateY : Res := lateSt.res.getD 0 (mkRes 9 false false 0)
+def lateO : Sub := lateY.subs.getD 0 { sess := 9, token := 9, key := 9, nonCnt := 0, failCnt := 0, dirty := false, mid := 0, lastVer := none }
+example : lateSt.res = [] ++ lateY :: [lateSt.res.getD 1 (mkRes 9 false false 0)] ∧ lateY.subs = [] ++ lateO :: [] ∧
+    lateY.alive = true ∧ lateY.err = false ∧ lateY.dirty = true := by decide
+example : backPressured (turnState { lateSt with now := lateSt.now + 0 } [] lateY []) lateY lateO = false := by decide
+example : ((run runStart ([.reg 0 0 1 0 true 1, .chg 0, .chg 0] ++ [.adv 0])).2.filter fun o => isNotif o).map (fun o => (o.obs, o.ver)) =
+    [(some 0, 2)] := by decide
+example : ((run runStart (lateEvents ++ [.ack 0 1000] ++ [.adv 0])).2.filter fun o => isNotif o).map (fun o => (o.obs, o.ver)) =
+    [(some 8, 1), (some 9, 2)] := by decide
+
+
+
+/-- the fairness hypothesis discharged from the state BEFORE the I/O step: fewer than NSTART Confirmables of the session in flight
+    (every earlier one acknowledged or given up) and `o` the first stale entry of its session in walk order -/
+theorem fair_when_first_stale (st : State) (pre : List Res) (y : Res) (spre : List Sub) (o : Sub)
+    (hcon : (getSess st o.sess).conActive < obsNstart)
+    (hpre : ∀ y1 ∈ pre, y1.alive = true → ∀ o1 ∈ y1.subs, o1.sess = o.sess → y1.dirty = false ∧ o1.dirty = false)
+    (hspre : ∀ o1 ∈ spre, o1.sess = o.sess → y.dirty = false ∧ o1.dirty = false) :
+    backPressured (turnState st pre y spre) y o = false :=
+  first_stale_entry_not_backPressured st pre y spre o hcon hpre hspre
+
+/-- latest_eventually_notified, run level, fairness stated on the reachable state itself: after ANY run, for every session with
+    fewer than NSTART Confirmables in flight, the I/O step tells the first stale entry of that session (in walk order, alive
+    healthy resource) the resource's latest state.  (So with every Confirmable eventually acknowledged or given up, each
+    ACK + I/O round serves one more stale entry of the session until none is left; NON-eligible entries are served at once:
+    `fair_when_non`.) -/
+theorem latest_eventually_notified_first_stale (st0 : State) (evs : List Event) (ms : Nat) (hid : IdsNodup st0) (hw : Wake st0)
+    (pre post : List Res) (y : Res) (spre spost : List Sub) (o : Sub)
+    (hres : (run st0 evs).1.res = pre ++ y :: post) (hsubs : y.subs = spre ++ o :: spost)
+    (hal : y.alive = true) (herr : y.err = false) (hst : y.dirty = true ∨ o.dirty = true)
+    (hcon : (getSess (run st0 evs).1 o.sess).conActive < obsNstart)
+    (hpre : ∀ y1 ∈ pre, y1.alive = true → ∀ o1 ∈ y1.subs, o1.sess = o.sess → y1.dirty = false ∧ o1.dirty = false)
+    (hspre : ∀ o1 ∈ spre, o1.sess = o.sess → y.dirty = false ∧ o1.dirty = false) :
+    ∃ out ∈ (run st0 (evs ++ [.adv ms])).2, out.tag = .note ∧ out.c = o.sess ∧ out.token = o.token ∧ out.res = y.id ∧
+      out.code = 69 ∧ out.obs = some y.observe ∧ out.ver = y.ver :=
+  latest_eventually_notified_run st0 evs ms hid hw pre post y spre spost o hres hsubs hal herr hst
+    (first_stale_entry_not_backPressured _ pre y spre o (by rw [getSess_conActive_now]; exact hcon) hpre hspre)
+
+/-- witness: NOTIFY_CON resource 1 — the second change is deferred while the first Confirmable is in flight; once it is
+    acknowledged (here: by `handleAck` alone, before the I/O loop runs) the hypotheses of the theorem hold -/
+def ackedSt : State := handleAck (run runStart lateEvents).1 0 2
+def ackedY : Res := ackedSt.res.getD 1 (mkRes 9 false false 0)
+def ackedO : Sub := ackedY.subs.getD 0 { sess := 9, token := 9, key := 9, nonCnt := 0, failCnt := 0, dirty := false, mid := 0, lastVer := none }
+example : (getSess (run runStart lateEvents).1 0).conActive = 1 ∧ (getSess ackedSt 0).conActive = 0 := by decide
+example : ackedSt.res = [ackedSt.res.getD 0 (mkRes 9 false false 0)] ++ ackedY :: [] ∧ ackedY.subs = [] ++ ackedO :: [] ∧
+    ackedY.alive = true ∧ ackedY.err = false ∧ ackedO.dirty = true ∧ ackedY.fCon = true ∧
+    (getSess ackedSt ackedO.sess).conActive < obsNstart ∧
+    (∀ o1 ∈ (ackedSt.res.getD 0 (mkRes 9 false false 0)).subs, o1.sess ≠ ackedO.sess) := by decide
+
+
+
+/-- every well-formedness hypothesis used by the global theorems holds in EVERY state reachable from an initial state whose
+    resources have pairwise distinct ids, no subscribers and are not dirty -/
+theorem reachable_invariants_init (res : List Res) (stTicks : Nat) (evs : List Event) (hids : (res.map (·.id)).Nodup)
+    (h : ∀ y ∈ res, y.subs = [] ∧ y.dirty = false) :
+    IdsNodup (run (init res stTicks) evs).1 ∧ NoDupSt (run (init res stTicks) evs).1 ∧ FailZero (run (init res stTicks) evs).1 ∧
+    RefInv (run (init res stTicks) evs).1 ∧ Wake (run (init res stTicks) evs).1 ∧
+    (∀ y ∈ (run (init res stTicks) evs).1.res, NonCntOk y) := by
+  have hsubs : ∀ y ∈ res, y.subs = [] := fun y hy => (h y hy).1
+  obtain ⟨h1, h2, h3⟩ := invariants_of_init res stTicks evs hids hsubs
+  exact ⟨h1, h2, h3, run_refInv _ evs hids (init_refInv res stTicks hsubs), run_wake _ evs hids (wake_init res stTicks h),
+    run_nonCntOk _ evs hids (fun z hz o ho => by rw [show z.subs = [] from hsubs z hz] at ho; cases ho)⟩
+
+example : ([mkRes 0 false false 16777214, mkRes 1 true false 7].map (·.id)).Nodup ∧
+    ∀ y ∈ [mkRes 0 false false 16777214, mkRes 1 true false 7], y.subs = [] ∧ y.dirty = false := by decide
+
+
+theorem sum_zero_of_all_zero : ∀ (l : List Nat), (∀ x ∈ l, x = 0) → l.sum = 0
+  | [], _ => rfl
+  | a :: t, h => by
+    simp only [List.sum_cons]
+    rw [h a (List.mem_cons_self ..), sum_zero_of_all_zero t (fun x hx => h x (List.mem_cons_of_mem _ hx))]
+
+/-! ### GLOBAL: progress measure for "eventually" — the number of stale entries of a session -/
+/-- `staleOf c st` = number of entries of session c on alive resources that have not been told the current state.
+    It is 0 exactly when every such entry is clean on a clean resource (then `clean_entry_holds_latest` applies). -/
+theorem staleOf_zero_iff (c : Nat) (st : State) :
+    staleOf c st = 0 ↔ ∀ y ∈ st.res, y.alive = true → ∀ o ∈ y.subs, o.sess = c → y.dirty = false ∧ o.dirty = false := by
+  unfold staleOf
+  constructor
+  · intro h y hy hal o ho hc
+    have h1 := sum_eq_zero_mem _ h _ (List.mem_map_of_mem (f := staleR c) hy)
+    unfold staleR at h1
+    rw [if_pos hal] at h1
+    have h2 : (y.subs.filter (staleP c y)) = [] := List.eq_nil_of_length_eq_zero h1
+    have h3 := List.filter_eq_nil_iff.mp h2 o ho
+    simp [staleP, hc] at h3
+    exact h3
+  · intro h
+    apply sum_zero_of_all_zero
+    intro x hx
+    obtain ⟨y, hy, rfl⟩ := List.mem_map.mp hx
+    unfold staleR
+    split
+    · rename_i hal
+      rw [List.length_eq_zero_iff, List.filter_eq_nil_iff]
+      intro o ho
+      by_cases hc : o.sess = c
+      · have := h y hy hal o ho hc
+        simp [staleP, this.1, this.2]
+      · simp [staleP, hc]
+    · rfl
+
+/-- an I/O step (`adv`) and an ACK never add a stale entry: only a new change (`chg`, `del`) or a registration on a dirty
+    resource does -/
+theorem quiet_events_never_add_stale (c : Nat) : ∀ (evs : List Event) (st : State),
+    (∀ e ∈ evs, (∃ ms, e = .adv ms) ∨ (∃ c' n, e = .ack c' n)) → staleOf c (run st evs).1 ≤ staleOf c st
+  | [], _, _ => Nat.le_refl _
+  | e :: es, st, h => by
+    rw [run_cons]
+    have h1 : staleOf c (step st e).1 ≤ staleOf c st := by
+      rcases h e (List.mem_cons_self ..) with ⟨ms, rfl⟩ | ⟨c', n, rfl⟩
+      · exact io_stale_le { st with now := st.now + ms } c
+      · unfold step; dsimp only
+        split
+        · split
+          · unfold rxThenIo
+            dsimp only
+            refine Nat.le_trans (io_stale_le _ c) ?_
+            unfold staleOf
+            exact staleOf_le_of_le c (handleAck_leF ..)
+          · exact Nat.le_refl _
+        · exact Nat.le_refl _
+    exact Nat.le_trans (quiet_events_never_add_stale c es _ (fun e' he' => h e' (List.mem_cons_of_mem _ he'))) h1
+
+/-- every FAIR I/O step serves one more: after any run, if session o.sess has fewer than NSTART Confirmables in flight and `o` is
+    its first stale entry in walk order, the step strictly decreases the number of stale entries of that session (whatever the
+    handler answers).  With `quiet_events_never_add_stale`: under fairness (each Confirmable eventually acknowledged or given
+    up, the I/O loop keeps running) and no further change, after at most `staleOf` rounds no entry of the session is stale —
+    everybody holds the latest state (`staleOf_zero_iff`, `clean_entry_holds_latest`). -/
+theorem fair_step_decreases_stale (st0 : State) (evs : List Event) (ms : Nat) (hid : IdsNodup st0) (hw : Wake st0)
+    (pre post : List Res) (y : Res) (spre spost : List Sub) (o : Sub)
+    (hres : (run st0 evs).1.res = pre ++ y :: post) (hsubs : y.subs = spre ++ o :: spost)
+    (hal : y.alive = true) (hst : y.dirty = true ∨ o.dirty = true)
+    (hcon : (getSess (run st0 evs).1 o.sess).conActive < obsNstart)
+    (hpre : ∀ y1 ∈ pre, y1.alive = true → ∀ o1 ∈ y1.subs, o1.sess = o.sess → y1.dirty = false ∧ o1.dirty = false)
+    (hspre : ∀ o1 ∈ spre, o1.sess = o.sess → y.dirty = false ∧ o1.dirty = false) :
+    staleOf o.sess (run st0 (evs ++ [.adv ms])).1 < staleOf o.sess (run st0 evs).1 := by
+  have hy : y ∈ (run st0 evs).1.res := by rw [hres]; simp
+  have ho : o ∈ y.subs := by rw [hsubs]; simp
+  obtain ⟨hp, hwalk⟩ := stale_entry_keeps_wakeup st0 evs hid hw y hy hal o ho hst
+  rw [run_append]
+  simp only [run_cons, run_nil]
+  exact io_stale_lt { (run st0 evs).1 with now := (run st0 evs).1.now + ms } pre post y spre spost o hres hsubs hp hal hwalk hst
+    (first_stale_entry_not_backPressured _ pre y spre o (by rw [getSess_conActive_now]; exact hcon) hpre hspre)
+
+/-- witness (the deferred entry of `lateEvents`, acknowledged): one stale entry before the fair step, none after -/
+example : staleOf 0 ackedSt = 1 ∧ staleOf 0 (io ackedSt).1 = 0 := by decide
+example : staleOf 0 (run runStart lateEvents).1 = 1 ∧ staleOf 0 (run runStart (lateEvents ++ [.ack 0 1000])).1 = 0 := by decide
+
+
+end Coap.C11
